@@ -430,6 +430,26 @@ theorem expand_plain_accepted (F : Features) (d : DeriveInput) (a : Attribute) (
   | nil => right; rfl
   | cons x xs => left; exact ⟨_, rfl⟩
 
+theorem default_struct_plain_accepted (c : Ctx) (m : TraitMeta) (hm : m.form = .path) (hk : c.d.kind = .struct) (hp : PlainBelow c.d) :
+    IsOk (defaultHandler c m) := by
+  unfold defaultHandler
+  simp only [defaultTypeFromMeta, hm, if_true, ok_bind_eq, hk]
+  have hfs : ∀ f ∈ (c.d.variants.headD {}).fields, f.attrs = [] := by
+    intro f hf
+    cases hvs : c.d.variants with
+    | nil => rw [hvs] at hf; simp at hf
+    | cons v vs => rw [hvs] at hf; exact (hp v (by rw [hvs]; simp)).2 f (by simpa using hf)
+  refine isOk_bind (isOk_mapRes _ _ (fun f hf => ?_)) (fun fas => ⟨_, rfl⟩)
+  rw [hfs f hf]; exact ⟨_, rfl⟩
+
+/-- A struct with exactly one field: `#[educe(Deref)]` / `#[educe(DerefMut)]` needs no marker. -/
+theorem deref_single_field_accepted (c : Ctx) (m : TraitMeta) (me : TraitId) (hm : m.form = .path) (hk : c.d.kind = .struct)
+    (v : Variant) (f : Field) (hv : c.d.variants = [v]) (hf : v.fields = [f]) (hfa : f.attrs = []) :
+    IsOk (derefHandler c m me) := by
+  unfold derefHandler
+  simp only [hk, flagTypeFromMeta, hm, if_true, ok_bind_eq, hv, List.headD, hf, derefPick, hfa]
+  exact ⟨_, rfl⟩
+
 /-- Non-vacuity: `#[educe(Debug, Clone, PartialEq, Eq, PartialOrd, Ord, Hash)] struct S<T> { a: u8, b: T }`
     meets the hypotheses of `expand_plain_accepted`. -/
 example :
